@@ -5,6 +5,7 @@ import PcVerif.Model.XmlText
 import PcVerif.Generated.Dfxp
 import PcVerif.Generated.Sami
 import PcVerif.Lemmas.VttPassLemmas
+import PcVerif.Lemmas.LeafLemmas
 namespace PcVerif.Props.C04
 open PcVerif PcVerif.Str PcVerif.XmlText
 
@@ -63,5 +64,42 @@ theorem vtt_line_roundtrip (t : Str) (h : Spec.NoEdgeSpace t) : Vtt.decode (Vtt.
 
 example : Spec.NoEdgeSpace "Q&A &amp;lt; --> <i>x".toList := by
   constructor <;> (intro c hc; simp at hc; subst hc; decide)
+
+/-- **C04 (an indented leaf).** a text leaf written on a line of its own — one or more line feeds / carriage returns, any
+    indentation, the text, a line feed and the indentation of the closing tag, which is how pretty-printers (bs4's
+    `prettify` in pycaption's own writers among them) and most authors write it — is read as exactly the text: the
+    indentation is no part of it, nothing of the text is lost -/
+theorem leaf_indented (nl ind t ind' : Str) (hnl : nl ≠ []) (hnl' : ∀ c ∈ nl, isNlCr c = true)
+    (hind : ∀ c ∈ ind, isSpace c = true ∧ isNlCr c = false) (ht : Line t) (hind' : ∀ c ∈ ind', isSpace c = true) :
+    leafText (nl ++ ind ++ t ++ '\n' :: ind') = some t :=
+  XmlText.leaf_indented nl ind t ind' hnl hnl' hind ht hind'
+
+/-- **C04 (a paragraph of lines).** a `<p>` whose children are one text leaf per line with `<br/>` elements between them — each
+    leaf spelled on one source line, or indented on a line of its own with any indentation (`wrap`) — is read as exactly
+    these lines, separated by break nodes: any number of lines, any text in them -/
+theorem paragraph_lines_read (wrap : Str → Str) (lines : List Str) (h : ∀ l ∈ lines, leafText (wrap l) = some l) :
+    XmlTree.nodesList (XmlTree.paraChildren wrap lines) = XmlTree.lineNodes lines :=
+  XmlTree.paragraph_lines wrap lines h
+
+/-- the two spellings the theorem above is meant for satisfy its hypothesis -/
+theorem paragraph_lines_spellings (l : Str) (hl : Line l) (ind ind' : Str)
+    (hind : ∀ c ∈ ind, isSpace c = true ∧ isNlCr c = false) (hind' : ∀ c ∈ ind', isSpace c = true) :
+    leafText l = some l ∧ leafText ('\n' :: ind ++ l ++ '\n' :: ind') = some l := by
+  constructor
+  · obtain ⟨c, s, rfl⟩ : ∃ c s, l = c :: s := by
+      cases l with
+      | nil => exact absurd rfl hl.ne
+      | cons a b => exact ⟨a, b, rfl⟩
+    refine leaf_single_line s c (hl.noNl c (by simp)) ?_
+    intro hm
+    have := hl.noNl '\n' hm
+    revert this; decide
+  · have := XmlText.leaf_indented ['\n'] ind l ind' (by simp) (by intro c hc; simp at hc; subst hc; decide) hind hl hind'
+    simpa using this
+
+example : Line "Q&A — 100% <ok>".toList := by
+  refine ⟨by decide, ?_, ?_⟩
+  · intro c hc; revert c; decide
+  · intro c hc; simp at hc; subst hc; decide
 
 end PcVerif.Props.C04
